@@ -222,7 +222,7 @@ package sgip12
 //@   loop 1
 //@     invariant packet.rinv(b)
 //@     invariant 0 <= i && i <= int(p.UserCount)
-//@     invariant len(p.UserNumber) == i
+//@     invariant len(p.UserNumber) == entry(len(p.UserNumber)) + i
 //@     invariant entry(packet.rfailed(b)) ==> packet.rfailed(b)
 //@     invariant !packet.rfailed(b) ==> len(packet.rem(b)) <= entry(len(packet.rem(b)))
 //@     invariant alloc <= entry(alloc) + 106 * i
